@@ -150,6 +150,8 @@ func judge(c Case) *pbt.Verdict {
 	localCause := false // a local terminal cause (cancel, hook error) occurred
 	requestSent := false
 	var cancelOnWire bool
+	var repaused string
+	pauseCauses := 0
 	states := map[string]bool{}
 	newAttempts := func(w *sim.World) int {
 		n := 0
@@ -181,6 +183,7 @@ func judge(c Case) *pbt.Verdict {
 		rq := w.AddInstance(scen.ReqID, sim.NewStore(reqStore, true), gsimpl.MessageSendRetries(c.Retries))
 		resp := w.AddScripted(scen.RespID)
 		nResp, nBlock := 0, 0
+		causesAtUnpause, unpaused := 0, false
 		stall := make(chan struct{})
 		stallOpen := false
 		release := func() {
@@ -203,6 +206,7 @@ func judge(c Case) *pbt.Verdict {
 				ha.TerminateWithError(errors.New("block hook says no"))
 			}
 			if nBlock == c.BlockHookPause {
+				pauseCauses++
 				ha.PauseRequest()
 			}
 			if nBlock == c.BlockHookStall && !stallOpen {
@@ -231,6 +235,18 @@ func judge(c Case) *pbt.Verdict {
 				states[tag+"-"+st.String()] = true
 			} else if live() {
 				states[tag+"-terminating"] = true
+			}
+		}
+		// one pause per pause command: once an Unpause has succeeded, the request may only be found paused
+		// again if a pause was requested (API call accepted, or the block hook's PauseRequest) since then
+		unpause := func() {
+			if rq.GS.Unpause(w.Ctx, myID) == nil {
+				unpaused, causesAtUnpause = true, pauseCauses
+			}
+		}
+		checkRepause := func(where string) {
+			if st, ok := rq.Impl.PeerState(scen.RespID).OutgoingState.RequestStates[myID]; ok && st == graphsync.Paused && unpaused && pauseCauses == causesAtUnpause && repaused == "" {
+				repaused = where
 			}
 		}
 		act := func(a Action) {
@@ -262,15 +278,18 @@ func judge(c Case) *pbt.Verdict {
 				}()
 				w.Quiesce()
 			case "pause":
-				_ = rq.GS.Pause(w.Ctx, myID)
+				if rq.GS.Pause(w.Ctx, myID) == nil {
+					pauseCauses++
+				}
 			case "unpause":
-				_ = rq.GS.Unpause(w.Ctx, myID)
+				unpause()
 			case "disconnect":
 				w.Net.Disconnect(scen.ReqID, scen.RespID)
 			case "release":
 				release()
 			}
 			w.Quiesce()
+			checkRepause("after action " + a.Kind)
 		}
 		for step := 0; step <= len(script); step++ {
 			for _, a := range c.Actions {
@@ -310,16 +329,19 @@ func judge(c Case) *pbt.Verdict {
 			rsp := gsmsg.NewResponse(myID, m.status, m.md)
 			if err := w.Net.Inject(scen.RespID, scen.ReqID, gsmsg.NewMessage(nil, map[graphsync.RequestID]gsmsg.GraphSyncResponse{myID: rsp}, blks)); err == nil {
 				w.Quiesce()
+				checkRepause(fmt.Sprintf("after response message %d", step))
 			}
 		}
 		release()
 		w.Quiesce()
+		checkRepause("after the hook stall was released")
 		// fairness premise: whatever is paused gets unpaused -- except a request its caller has
 		// cancelled, which must end without further help
 		for i := 0; i < 3 && !callerCancelledLive; i++ {
 			if st, ok := rq.Impl.PeerState(scen.RespID).OutgoingState.RequestStates[myID]; ok && st == graphsync.Paused {
-				_ = rq.GS.Unpause(w.Ctx, myID)
+				unpause()
 				w.Quiesce()
+				checkRepause("in the closing phase")
 			}
 		}
 		w.Quiesce()
@@ -358,6 +380,12 @@ func judge(c Case) *pbt.Verdict {
 	v.Note = fmt.Sprintf("sel=%s script=%d ending=%s actions=%v", c.Base.Sel, len(script), ending, c.Actions)
 	if ro.Panic != "" {
 		return v.Failf("panic: %s", ro.Panic)
+	}
+	if repaused != "" {
+		return v.Failf("the request was found paused again %s although no pause had been requested since the last successful Unpause (pause commands so far: %d)", repaused, pauseCauses)
+	}
+	if pauseCauses >= 2 {
+		v.Label("several-pause-commands")
 	}
 	if (terminalDelivered || callerCancelledLive) && (!rc || !ec) {
 		return v.Failf("terminal status delivered=%v, caller cancelled=%v, but at final quiescence channels are resp-closed=%v err-closed=%v (errs=%v)", terminalDelivered, callerCancelledLive, rc, ec, errs)
